@@ -5,7 +5,7 @@ import CV.Proofs.AEInv
 namespace CV.AE
 open AMap
 
-variable {Rs Rc Ps Pc : Id → Prop}
+variable {T : Prop} {Rs Rc Ps Pc : Id → Prop}
 
 /-- flags turning on (justified by a refusal, by the catalog holding the entry, or irrelevant
     because the entry is pending deletion) -/
@@ -14,7 +14,7 @@ theorem GInv_flags {l l' : Local} {c : Cat}
         (e.deleted = true ∨ Rs i ∨ ∀ d, e.live? = some d → c.svcs.get? i = some d))
     (hc : ∀ k, l'.chks.get? k = l.chks.get? k ∨ ∃ e, l.chks.get? k = some e ∧ l'.chks.get? k = some (e.setInSync true) ∧
         (e.deleted = true ∨ Rc k ∨ ∀ d, e.live? = some d → ∃ rc, c.chks.get? k = some rc ∧ rc.core = d.core))
-    (g : GInv Rs Rc Ps Pc l c) : GInv Rs Rc Ps Pc l' c := by
+    (g : GInv T Rs Rc Ps Pc l c) : GInv T Rs Rc Ps Pc l' c := by
   have hls : ∀ i, liveSvc l' i = liveSvc l i := by
     intro i; unfold liveSvc
     rcases hs i with h | ⟨e, h1, h2, _⟩
@@ -36,16 +36,16 @@ theorem GInv_flags {l l' : Local} {c : Cat}
     · rcases hc "" with h | ⟨e, h1, _, _⟩
       · rw [h]; exact n2
       · rw [n2] at h1; cases h1
-  · intro k d tok loc b rc h1 h2 h3
+  · intro ht k d tok loc b rc h1 h2 h3
     rcases hc k with h | ⟨e, he1, he2, _⟩
-    · rw [h] at h1; exact g.nrb k d tok loc b rc h1 h2 h3
+    · rw [h] at h1; exact g.nrb ht k d tok loc b rc h1 h2 h3
     · rw [he2] at h1
       cases e with
       | ghost x => simp [Ent.setInSync] at h1
       | ent d' t' lo' x' del' =>
         simp only [Ent.setInSync, Option.some.injEq, Ent.ent.injEq] at h1
         obtain ⟨rfl, rfl, rfl, _, rfl⟩ := h1
-        exact g.nrb k d' t' lo' x' rc he1 h2 h3
+        exact g.nrb ht k d' t' lo' x' rc he1 h2 h3
   · intro id d tok loc h1
     rcases hs id with h | ⟨e, he1, he2, hj⟩
     · rw [h] at h1; exact g.snd.1 id d tok loc h1
@@ -76,9 +76,9 @@ theorem GInv_flags {l l' : Local} {c : Cat}
     rcases hs id with h | ⟨e, he1, he2, _⟩
     · rw [h] at h1; exact g.tgt.1 id h1
     · rw [he2] at h1; cases h1
-  · intro k h1
+  · intro ht k h1
     rcases hc k with h | ⟨e, he1, he2, _⟩
-    · rw [h] at h1; exact g.tgt.2 k h1
+    · rw [h] at h1; exact g.tgt.2 ht k h1
     · rw [he2] at h1; cases h1
 
 /-! ### Catalog.Register -/
@@ -135,7 +135,7 @@ theorem register_succeeds (c : Cat) (r : RegReq)
 theorem GInv_register {l : Local} {c c' : Cat} {r : RegReq} (h : c.register r = some c')
     (hsv : ∀ id d, r.svc = some (id, d) → ∃ tok loc b, l.svcs.get? id = some (.ent d tok loc b false))
     (hck : ∀ k d, (k, d) ∈ r.chks → ∃ tok loc b, l.chks.get? k = some (.ent d tok loc b false))
-    (g : GInv Rs Rc Ps Pc l c) : GInv Rs Rc Ps Pc l c' := by
+    (g : GInv T Rs Rc Ps Pc l c) : GInv T Rs Rc Ps Pc l c' := by
   obtain ⟨s1, s2, s3, _⟩ := register_spec h
   obtain ⟨n1, n2, n3, n4⟩ := g.nek
   -- service presence only grows
@@ -179,9 +179,9 @@ theorem GInv_register {l : Local} {c c' : Cat} {r : RegReq} (h : c.register r = 
     · rcases hchk_eq "" with e | ⟨d, tok, loc, b, rc, hl, _⟩
       · rw [e]; exact n4
       · rw [n2] at hl; cases hl
-  · intro k d tok loc b rc h1 h2 h3
+  · intro ht k d tok loc b rc h1 h2 h3
     rcases hchk_eq k with e | ⟨d', tok', loc', b', rc', hl, _⟩
-    · rw [e] at h3; exact g.nrb k d tok loc b rc h1 h2 h3
+    · rw [e] at h3; exact g.nrb ht k d tok loc b rc h1 h2 h3
     · rw [hl] at h1; cases h1
   · intro id d tok loc h1
     rcases hsvc_eq id with e | ⟨d', tok', loc', b', hl, hc'⟩
@@ -195,15 +195,15 @@ theorem GInv_register {l : Local} {c c' : Cat} {r : RegReq} (h : c.register r = 
     rcases hsvc_eq id with e | ⟨d', tok', loc', b', hl, _⟩
     · rw [e]; exact g.tgt.1 id h1
     · rw [h1] at hl; cases hl
-  · intro k h1
+  · intro ht k h1
     rcases hchk_eq k with e | ⟨d', tok', loc', b', rc', hl, _⟩
-    · rw [e]; exact g.tgt.2 k h1
+    · rw [e]; exact g.tgt.2 ht k h1
     · rw [h1] at hl; cases hl
 
 /-! ### Catalog.Deregister -/
 
 theorem GInv_deregSvc {l : Local} {c : Cat} (id : Id) (hl : liveSvc l id = none)
-    (g : GInv Rs Rc Ps Pc l c) : GInv Rs Rc Ps Pc l (c.deregSvc id) := by
+    (g : GInv T Rs Rc Ps Pc l c) : GInv T Rs Rc Ps Pc l (c.deregSvc id) := by
   obtain ⟨n1, n2, n3, n4⟩ := g.nek
   have hsub : ∀ k rc, (c.deregSvc id).chks.get? k = some rc → c.chks.get? k = some rc ∧ (c.svcs.get? id ≠ none → rc.sid ≠ id) := by
     intro k rc h
@@ -233,8 +233,8 @@ theorem GInv_deregSvc {l : Local} {c : Cat} (id : Id) (hl : liveSvc l id = none)
     · cases h : (c.deregSvc id).chks.get? "" with
       | none => rfl
       | some rc => have := (hsub "" rc h).1; rw [n4] at this; cases this
-  · intro k d tok loc b rc h1 h2 h3
-    exact g.nrb k d tok loc b rc h1 h2 (hsub k rc h3).1
+  · intro ht k d tok loc b rc h1 h2 h3
+    exact g.nrb ht k d tok loc b rc h1 h2 (hsub k rc h3).1
   · intro i d tok loc h1
     rcases g.snd.1 i d tok loc h1 with h | h
     · exact Or.inl h
@@ -265,8 +265,8 @@ theorem GInv_deregSvc {l : Local} {c : Cat} (id : Id) (hl : liveSvc l id = none)
     rcases g.tgt.1 i h1 with h | h
     · left; rw [deregSvc_svcs]; split <;> simp_all
     · exact Or.inr h
-  · intro k h1
-    rcases g.tgt.2 k h1 with h | h
+  · intro ht k h1
+    rcases g.tgt.2 ht k h1 with h | h
     · left
       cases h' : (c.deregSvc id).chks.get? k with
       | none => rfl
@@ -278,7 +278,7 @@ theorem deregChk_chks (c : Cat) (k k' : Id) :
   simp [Cat.deregChk, get?_erase]
 
 theorem GInv_deregChk {l : Local} {c : Cat} (k : Id) (hl : liveChk l k = none)
-    (g : GInv Rs Rc Ps Pc l c) : GInv Rs Rc Ps Pc l (c.deregChk k) := by
+    (g : GInv T Rs Rc Ps Pc l c) : GInv T Rs Rc Ps Pc l (c.deregChk k) := by
   obtain ⟨n1, n2, n3, n4⟩ := g.nek
   have hsub : ∀ k' rc, (c.deregChk k).chks.get? k' = some rc → c.chks.get? k' = some rc := by
     intro k' rc h; rw [deregChk_chks] at h; split at h
@@ -287,7 +287,7 @@ theorem GInv_deregChk {l : Local} {c : Cat} (k : Id) (hl : liveChk l k = none)
   refine ⟨g.lwf, ?_, ⟨n1, n2, n3, ?_⟩, ?_, ⟨g.snd.1, ?_⟩, ⟨g.tgt.1, ?_⟩⟩
   · intro k' rc h1 h2; exact g.cwf k' rc (hsub k' rc h1) h2
   · rw [deregChk_chks]; split <;> simp_all
-  · intro k' d tok loc b rc h1 h2 h3; exact g.nrb k' d tok loc b rc h1 h2 (hsub k' rc h3)
+  · intro ht k' d tok loc b rc h1 h2 h3; exact g.nrb ht k' d tok loc b rc h1 h2 (hsub k' rc h3)
   · intro k' d tok loc h1
     rcases g.snd.2 k' d tok loc h1 with h | ⟨rc, h, hcore⟩
     · exact Or.inl h
@@ -295,8 +295,8 @@ theorem GInv_deregChk {l : Local} {c : Cat} (k : Id) (hl : liveChk l k = none)
       rw [deregChk_chks]; split
       · rename_i e; subst e; simp [liveChk, h1, Ent.live?] at hl
       · exact h
-  · intro k' h1
-    rcases g.tgt.2 k' h1 with h | h
+  · intro ht k' h1
+    rcases g.tgt.2 ht k' h1 with h | h
     · left; rw [deregChk_chks]; split <;> simp_all
     · exact Or.inr h
 
